@@ -39,6 +39,8 @@ func runC17(c *Ctx) {
 	defer c17RewriteReachesH2Upstream(c)
 	c.Rule("C17.R11", "a scheme redirect drops the host's port exactly when it is the default port of the original scheme", 1)
 	defer c17RedirectPortTable(c, "pkg/proxy")
+	c.Rule("C17.R13", "the route's retry policy fields are the configured ones, unadjusted", 4)
+	defer c17RetryPolicyVerbatim(c)
 	c.Rule("C17.R12", "retry decision table of doRetryCheck over (reset reason, retry_on, status readable)", 1)
 	defer c17RetryDecisionTable(c, "pkg/proxy")
 	c.Rule("C17.R6", "timeout sources applied lowest priority first; default only when zero", 4)
